@@ -2,6 +2,7 @@ package main
 
 import (
 	"fmt"
+	"os"
 	"go/types"
 	"runtime/debug"
 	"sort"
@@ -43,7 +44,7 @@ func (P *Prog) verifyFunc(key string, c11 bool) (res *FuncResult) {
 	}
 	x := &Exec{P: P, em: newEmitter(), top: fn, topSpec: spec, topKey: key, leaves: map[string]*LeafInfo{},
 		written: map[string]*WriteSet{}, notes: map[string]bool{}, assumedPanics: map[string]bool{}, strLits: map[string]string{},
-		usedSpecs: map[string]bool{}, assumedSpecs: map[string]bool{}, inlined: map[string]bool{}, inC11: c11, assumedClauses: map[string]bool{}, preds: map[string]*predDef{}, unfolded: map[string]bool{}, transferred: map[string]string{}, wfDone: map[string]bool{}}
+		usedSpecs: map[string]bool{}, assumedSpecs: map[string]bool{}, inlined: map[string]bool{}, inC11: c11, assumedClauses: map[string]bool{}, preds: map[string]*predDef{}, unfolded: map[string]bool{}, transferred: map[string]string{}, xferOwner: map[string]string{}, borrow: map[string][2]string{}, wfDone: map[string]bool{}}
 	res.Em = x.em
 	if spec != nil {
 		x.defProps = spec.Props
@@ -224,6 +225,12 @@ func (x *Exec) frameObligations(fr *Frame, out *State, spec *FuncSpec, sfx strin
 		if wholeOK(k) {
 			continue
 		}
+		if onlyNewWrites(x.written[k]) {
+			continue // written only inside objects this function allocated itself
+		}
+		if os.Getenv("GOVC_DEBUG") != "" {
+			fmt.Fprintf(os.Stderr, "frame %s: whole=%v bases=%v new=%v\n", k, x.written[k].Whole, x.written[k].Bases, x.written[k].New)
+		}
 		lf := x.leaves[k]
 		cur := x.heapGet(out, lf)
 		init := x.heapGet(x.entry, lf)
@@ -240,7 +247,7 @@ func (x *Exec) frameObligations(fr *Frame, out *State, spec *FuncSpec, sfx strin
 				x.elemLeaves(m.slice.Elem, x.regionOf(m.slice).key(), &leaves)
 				for _, l2 := range leaves {
 					if l2[0] == k {
-						bases = append(bases, m.slice.Base)
+						bases = append(bases, x.regionOf(m.slice).eb())
 					}
 				}
 				continue
@@ -291,7 +298,7 @@ func (P *Prog) verifyLemma(key string, spec *FuncSpec) (res *FuncResult) {
 	res = &FuncResult{Key: key}
 	x := &Exec{P: P, em: newEmitter(), topSpec: spec, topKey: key, leaves: map[string]*LeafInfo{},
 		written: map[string]*WriteSet{}, notes: map[string]bool{}, assumedPanics: map[string]bool{}, strLits: map[string]string{},
-		usedSpecs: map[string]bool{}, assumedSpecs: map[string]bool{}, inlined: map[string]bool{}, assumedClauses: map[string]bool{}, preds: map[string]*predDef{}, unfolded: map[string]bool{}, transferred: map[string]string{}, wfDone: map[string]bool{}}
+		usedSpecs: map[string]bool{}, assumedSpecs: map[string]bool{}, inlined: map[string]bool{}, assumedClauses: map[string]bool{}, preds: map[string]*predDef{}, unfolded: map[string]bool{}, transferred: map[string]string{}, xferOwner: map[string]string{}, borrow: map[string][2]string{}, wfDone: map[string]bool{}}
 	res.Em = x.em
 	x.defProps = spec.Props
 	defer func() {
